@@ -1020,3 +1020,71 @@ def rule_shared_decision(ctx):
     ctx.instance("rename-before-split")
     if not ok:
         ctx.report("rename-before-split", ctx.where(gb.file, gb.node), "`rename_all` is not applied to a unit variant's name before the wrapping / non-wrapping split: `_variant` shows the unconverted name under an enum-level format", {})
+
+
+def rule_literal_verbatim(ctx):
+    """LIT-VERBATIM: the text of a format literal reaches generated code only as the literal token itself (first argument of `write!` / `format_args!`, where rustc interprets `{{`, `}}` and the placeholders): no template of the fmt derives interpolates a value computed from `lit.value()` (the *unescaped* Rust string, in which `{{` is still two characters) - writing that text with `write_str` prints `{{ .. }}` where `format!` prints `{ .. }`."""
+    n = 0
+    for rel in (DISPLAY, DEBUG, MOD):
+        f = ctx.files[rel]
+        for fn in A.functions(f):
+            if fn.block is None:
+                continue
+            lets = {}
+            for st, _ in A.find(fn.block, "Stmt::Local"):
+                ids = A.pat_idents(st["pat"])
+                if len(ids) == 1 and st.get("init"):
+                    lets.setdefault(ids[0], []).append(A.render(st["init"]["expr"]))
+
+            def derived(name, depth=0):
+                for r in lets.get(name, []):
+                    if re.search(r"\blit\.value\(\)", r):
+                        return r
+                    if depth < 2:
+                        for w in re.findall(r"\b[a-z_][a-z0-9_]*\b", r):
+                            if w != name and w in lets:
+                                d = derived(w, depth + 1)
+                                if d:
+                                    return d
+                return None
+
+            for t in T.templates_of(fn):
+                for v in T.ir_vars(t.ir):
+                    n += 1
+                    d = derived(v.split(".")[0])
+                    if d:
+                        construct = f"{rel}::{fn.qual}:#{v}"
+                        ctx.instance(construct)
+                        ctx.report(f"lit-verbatim:{construct}", f"{rel}:{t.line}", f"template in `{fn.qual}` interpolates `#{v}`, computed from the literal's *value* (`{d[:80]}`): the text is emitted without `format_args!` interpreting its `{{{{` / `}}}}` escapes (and placeholders), so the output differs from what `format!` prints for the same literal", {})
+    ctx.instance("lit-verbatim:templates", sample={"interpolations checked": n})
+    ctx.floor("interpolations in fmt templates", n, 92)
+
+
+def rule_shared_attr_unfiltered(ctx):
+    """SHARED-ATTR: every variant is expanded with the enum-level format exactly as the user wrote it: the `shared_attr` handed to each `Expansion` is `container_attrs.common.fmt.as_ref()` itself (`None` for structs) - not filtered, replaced or pre-decided in `expand_enum`. Whether it wraps, is transparent or is ignored is decided per variant by `shared_attr_info()` (SHARED-DEC), which also compares the placeholder's trait with the derived one; a second, coarser decision upstream makes `#[lower_hex("{_variant}")]` pass the caller's flags through."""
+    fn_all = [g for g in A.functions(ctx.files[DISPLAY]) if g.block is not None]
+    n = 0
+    for fn in fn_all:
+        lets = {}
+        for st, _ in A.find(fn.block, "Stmt::Local"):
+            ids = A.pat_idents(st["pat"])
+            if len(ids) == 1 and st.get("init"):
+                lets[ids[0]] = st["init"]["expr"]
+        for x, _ in A.find(fn.block, "Expr::Struct"):
+            if A.path_last(x["path"]) != "Expansion":
+                continue
+            for fv in x["fields"]:
+                if A.kind(fv["member"]) == "Member::Named" and fv["member"]["0"]["sym"] == "shared_attr":
+                    e = fv["expr"]
+                    for _ in range(3):
+                        nm = A.path_str(A.peel(e)) if A.kind(A.peel(e)) == "Expr::Path" else None
+                        if nm and nm in lets:
+                            e = lets[nm]
+                        else:
+                            break
+                    r = A.render(A.peel(e))
+                    n += 1
+                    ctx.instance(f"{DISPLAY}::{fn.qual}:shared_attr", sample={"value": r})
+                    if r != "None" and not re.fullmatch(r"[\w.]+\.fmt\.as_ref\(\)", r):
+                        ctx.report(f"shared-attr:{fn.qual}", ctx.where(fn.file, fv["expr"]), f"`{fn.qual}` hands `{r[:120]}` to the variants as their shared format instead of the enum-level attribute itself: a decision about the shared format taken before the per-variant `shared_attr_info()` ignores what that function checks (the placeholder's trait against the derived trait, modifiers)", {})
+    ctx.floor("Expansion literals with shared_attr", n, 2)
